@@ -416,8 +416,16 @@ func ttxGenStream(r *fw.Rand) ttxStream {
 		w.payloadUnit(pmtPID, pmtSection(1, 0x1ff0, streams), true)
 		cnt["pat_pmt_transmissions"]++
 	}
-	tables()
-	tables()
+	// a capture that begins in the middle of a transmission: the first teletext PES comes before the first PAT/PMT
+	lateTables := r.P(1, 5)
+	if !lateTables {
+		tables()
+		if r.Bool() {
+			tables() // (a reader that cannot seek must not depend on the tables being repeated)
+		}
+	} else {
+		cnt["streams_with_pes_before_the_tables"]++
+	}
 	pts := r.I64n(1 << 32)
 	if r.P(1, 6) {
 		pts = fw.Pick(r, []int64{0, 0, 1, 90000}) // a stream whose clock starts at zero
@@ -443,6 +451,9 @@ func ttxGenStream(r *fw.Rand) ttxStream {
 		w.payloadUnit(tpid, pesPacket(0xbd, pts, r.Bool(), payload), false)
 		cnt["teletext_pes"]++
 		ptsList = append(ptsList, pts)
+		if lateTables && len(ptsList) == 1 {
+			tables()
+		}
 		// in between: other PIDs, null packets, tables, non-EBU PES on the teletext PID
 		if r.P(1, 4) {
 			w.null()
